@@ -200,10 +200,17 @@ func (g *TemplateGenerator) format(src []byte) ([]byte, error) {
 	return nil, fmt.Errorf("unknown formatter type: %s", g.formatter)
 }
 
-func (g *TemplateGenerator) methodData(ctx context.Context, method *types.Func, ifaceConfig *config.Config) (template.Method, error) {
+func (g *TemplateGenerator) methodData(ctx context.Context, method *types.Func, tparams *types.TypeParamList, ifaceConfig *config.Config) (template.Method, error) {
 	log := zerolog.Ctx(ctx)
 
 	methodScope := g.registry.MethodScope()
+	// The type parameters of the interface are declared by the receiver of
+	// every generated method, so their names are taken in the method's scope.
+	if tparams != nil {
+		for i := 0; i < tparams.Len(); i++ {
+			methodScope.AddName(tparams.At(i).Obj().Name())
+		}
+	}
 
 	signature := method.Type().(*types.Signature)
 	params := make([]template.Param, signature.Params().Len())
@@ -431,7 +438,7 @@ func (g *TemplateGenerator) Generate(
 
 		methods := make([]template.Method, iface.NumMethods())
 		for i := 0; i < iface.NumMethods(); i++ {
-			methodData, err := g.methodData(ctx, iface.Method(i), ifaceMock.Config)
+			methodData, err := g.methodData(ctx, iface.Method(i), tparams, ifaceMock.Config)
 			if err != nil {
 				return nil, err
 			}
